@@ -1,13 +1,273 @@
-import LcModel.Difficulty.Model
+import LcModel.Difficulty.Lemmas
 /-!
-# C14 — property theorems (difficulty checks)
+# C14 — difficulty checks accept every legal difficulty history and bound illegal ones
+
+Property theorems only; helper lemmas live in `LcModel/Difficulty/Lemmas.lean`.
+Subject: `Difficulty.verifyTotalDifficulty` / `Difficulty.verifyTau`, the Lean model of
+`verify_total_difficulty` / `verify_tau` (`send_last_state_proof.rs`), tied to the code by the
+function-level correspondence of `./check C14`.
 -/
 namespace C14
 open Difficulty
 
-/-- Witness (pinned tree): a legal history `D,2D,4D,4D,2D` (tau = 2) is rejected by the upper
-limit when the exponent `k` of the band's lower end is used for the `Max` path. -/
-theorem witness_pinned_incomplete_max :
-    checkLimit (Trend.new 40 80) .max 4 0 (80 + 160 + 160) 40 2 0 = .ok false := by rfl
+/-- Consecutive epoch difficulties obey the per-epoch adjustment bound `tau`
+(`a / tau ≤ b ≤ a * tau`, stated without division). -/
+def Legal (tau : Nat) : List Nat → Prop
+  | a :: b :: rest => a ≤ tau * b ∧ b ≤ tau * a ∧ Legal tau (b :: rest)
+  | _ => True
+
+/-- `Σ_{i=1..c} ⌊x / tau^i⌋` — the accumulated difficulty of `c` epochs on the steepest legal
+descent from epoch difficulty `x`. -/
+def divSum (tau : Nat) : Nat → Nat → Nat
+  | 0, _ => 0
+  | c+1, x => x / tau + divSum tau c (x / tau)
+
+/-- `Σ_{i=1..c} x * tau^i` — the steepest legal ascent. -/
+def mulSum (tau : Nat) : Nat → Nat → Nat
+  | 0, _ => 0
+  | c+1, x => x * tau + mulSum tau c (x * tau)
+
+/-- The part of the accumulated difficulty that lies in the (partial) start and end epochs:
+blocks after the start block in its epoch, and blocks up to the end block in its epoch. -/
+def unalignedOf (sb eb : Nat) (se ee : Epoch) : Nat :=
+  sb * (se.length - (se.index + 1)) + eb * (ee.index + 1)
+
+/-! ## bridges to the helper definitions of `LcModel/Difficulty/Lemmas.lean` -/
+
+theorem legal_iff_leg (tau : Nat) : ∀ l : List Nat, Legal tau l ↔ Leg tau l
+  | [] => Iff.rfl
+  | [_] => Iff.rfl
+  | a :: b :: rest => by simp only [Legal, Leg, legal_iff_leg tau (b :: rest)]
+
+theorem divSum_eq_dSum (tau c x : Nat) : divSum tau c x = dSum tau c x := by
+  induction c generalizing x with
+  | zero => rfl
+  | succ c ih => simp only [divSum, dSum, ih]
+
+theorem mulSum_eq_mSum (tau c x : Nat) : mulSum tau c x = mSum tau c x := by
+  induction c generalizing x with
+  | zero => rfl
+  | succ c ih => simp only [mulSum, mSum, ih]
+
+/-! ## never abort -/
+
+/-- **C14 (never abort).** For every start/end epoch, compact target and total difficulty —
+any natural numbers, in particular every value of the machine types — the total-difficulty
+check returns a verdict; no arithmetic of the model (which panics exactly where the Rust code
+does) fails.  `verifyTau` is a total function without a panic path by construction. -/
+theorem no_abort (se ee : Epoch) (sc st ec et tau : Nat) :
+    ∃ r, verifyTotalDifficulty se sc st ee ec et tau = .ok r := by
+  exact verify_total se ee sc st ec et tau
+
+/-! ## soundness: what an accepted pair of end points is bounded by -/
+
+/-- **C14 (bounding).** If the check accepts, then: the total difficulty did not decrease; inside
+one epoch it is exactly `blocks * block difficulty`; across exactly one epoch switch it is exactly
+the unaligned part; and across `n ≥ 2` switches the end epoch difficulty lies within
+`[⌊D_s/tau^n⌋, D_s*tau^n]` and the accumulated difficulty of the `n-1` full epochs in between
+lies within the `tau`-geometric cone of the start epoch difficulty. -/
+theorem sound (se ee : Epoch) (sc st ec et tau : Nat) (htau : 1 ≤ tau)
+    (het : et ≤ U256_MAX)
+    (h : verifyTotalDifficulty se sc st ee ec et tau = .ok .ok) :
+    st ≤ et ∧
+    (se.number = ee.number →
+      se.index ≤ ee.index ∧ et - st = compactToDifficulty sc * (ee.index - se.index)) ∧
+    (se.number ≠ ee.number →
+      se.number < ee.number ∧ se.index < se.length ∧
+      (ee.number - se.number = 1 →
+        et - st = unalignedOf (compactToDifficulty sc) (compactToDifficulty ec) se ee) ∧
+      (2 ≤ ee.number - se.number →
+        let n := ee.number - se.number
+        let ds := compactToDifficulty sc * se.length
+        let de := compactToDifficulty ec * ee.length
+        let un := unalignedOf (compactToDifficulty sc) (compactToDifficulty ec) se ee
+        un ≤ et - st ∧
+        divSum tau (n - 1) ds ≤ et - st - un ∧
+        et - st - un ≤ mulSum tau (n - 1) ds ∧
+        divIter tau n ds ≤ de ∧ de ≤ ds * tau ^ n)) := by
+  obtain ⟨h0, h | h⟩ := verify_ok_inv h
+  · obtain ⟨e, hi, ht⟩ := h
+    exact ⟨h0, fun _ => ⟨hi, ht⟩, fun hne => absurd e hne⟩
+  · obtain ⟨hlt, hds, hde, hidx, hun, k, hk, hcase⟩ := h
+    refine ⟨h0, fun e => by omega, fun _ => ⟨hlt, hidx, ?_, ?_⟩⟩
+    · intro h1
+      rcases hcase with ⟨_, ht⟩ | ⟨hne, _⟩
+      · exact ht
+      · exact absurd h1 hne
+    · intro h2
+      rcases hcase with ⟨h1, _⟩ | ⟨_, hb⟩
+      · omega
+      · obtain ⟨hmin, hmax⟩ := multiBlock_eq_ok.mp hb
+        obtain ⟨l1, l2⟩ := limitExponents_le (by omega) hk
+        have hA : et - st ≤ U256_MAX := by omega
+        obtain ⟨m1, m2⟩ := checkLimit_min_sound htau hA hds l1 (by omega) hmin
+        have m3 := checkLimit_max_sound htau hA l2 (by omega) hmax
+        obtain ⟨t1, t2⟩ := tauExponent_sound htau hk
+        simp only [divSum_eq_dSum, mulSum_eq_mSum]
+        exact ⟨m1, m2, m3, t1, t2⟩
+
+/-! ## completeness: every legal history is accepted -/
+
+/-- **C14 (completeness, same epoch).** -/
+theorem complete_same_epoch (se ee : Epoch) (sc st ec et tau : Nat)
+    (hnum : se.number = ee.number) (hidx : se.index ≤ ee.index)
+    (htot : et = st + compactToDifficulty sc * (ee.index - se.index))
+    (hfit : et ≤ U256_MAX) :
+    verifyTotalDifficulty se sc st ee ec et tau = .ok .ok := by
+  unfold verifyTotalDifficulty
+  rw [if_neg (by omega : ¬ et < st)]
+  dsimp only
+  rw [if_pos hnum, if_neg (by omega : ¬ ee.index < se.index), if_neg (by omega),
+    if_neg (by simp only [ne_eq, Decidable.not_not]; omega)]
+  rfl
+
+/-- **C14 (completeness).** Take any history of epochs obeying the adjustment bound: a start
+epoch with block difficulty `sb > 0`, any number of full epochs in between with epoch
+difficulties `mids`, and an end epoch with block difficulty `eb > 0`, such that consecutive epoch
+difficulties are within a factor `tau` of each other.  If the end total difficulty is the start
+total plus the literal sum of the block difficulties in between (and the numbers fit their
+machine types), the check accepts. -/
+theorem complete (se ee : Epoch) (sc st ec et tau : Nat) (mids : List Nat)
+    (htau : 1 ≤ tau)
+    (hsb : 0 < compactToDifficulty sc) (heb : 0 < compactToDifficulty ec)
+    (hsi : se.index < se.length) (hei : ee.index < ee.length)
+    (hnum : ee.number = se.number + mids.length + 1)
+    (hlegal : Legal tau (compactToDifficulty sc * se.length :: mids ++
+                          [compactToDifficulty ec * ee.length]))
+    (hds : compactToDifficulty sc * se.length ≤ U256_MAX)
+    (hde : compactToDifficulty ec * ee.length ≤ U256_MAX)
+    (htot : et = st + unalignedOf (compactToDifficulty sc) (compactToDifficulty ec) se ee
+                    + mids.sum)
+    (hfit : et ≤ U256_MAX) :
+    verifyTotalDifficulty se sc st ee ec et tau = .ok .ok := by
+  have _ := hsb  -- (not needed: only the end epoch's block difficulty must be positive)
+  have _ := hei
+  have hleg' := (legal_iff_leg tau _).mp hlegal
+  have hn : ee.number - se.number = mids.length + 1 := by omega
+  obtain ⟨k, hk⟩ := tauExponent_complete htau mids hleg' hds hde
+  rw [← hn] at hk
+  have hpos : 0 < unalignedOf (compactToDifficulty sc) (compactToDifficulty ec) se ee :=
+    Nat.lt_of_lt_of_le (Nat.mul_pos heb (Nat.succ_pos ee.index)) (Nat.le_add_left _ _)
+  have hact : et - st =
+      unalignedOf (compactToDifficulty sc) (compactToDifficulty ec) se ee + mids.sum := by omega
+  have hA : et - st ≤ U256_MAX := by omega
+  have hun : unalignedOf (compactToDifficulty sc) (compactToDifficulty ec) se ee ≤ U256_MAX := by
+    omega
+  obtain ⟨l1, l2⟩ := limitExponents_le (by omega) hk
+  rw [verify_multi_eq (by omega) (by omega) hds hde hk hsi hun]
+  by_cases h1 : ee.number - se.number = 1
+  · rw [if_pos h1]
+    have : mids = [] := List.length_eq_zero_iff.mp (by omega)
+    subst this
+    have hact' : et - st =
+        unalignedOf (compactToDifficulty sc) (compactToDifficulty ec) se ee := by simpa using hact
+    rw [if_neg (by simp only [ne_eq, Decidable.not_not]; exact hact')]
+    rfl
+  · rw [if_neg h1]
+    refine multiBlock_eq_ok.mpr ⟨?_, ?_⟩
+    · exact checkLimit_min_of_key htau _ mids l1 hn hleg'
+        (fun inc dec hs hv _ => keyMin htau hds hde hk inc dec hs hv) hact hA hpos
+    · exact checkLimit_max_of_key htau _ mids l2 hn hleg' hds
+        (fun inc dec hs hv _ => keyMax htau hk inc dec hs hv) hact hA
+
+/-- **C14 (completeness of the trend check).** The end points of a legal history pass
+`verify_tau`. -/
+theorem complete_tau (se ee : Epoch) (sc ec tau : Nat) (mids : List Nat)
+    (htau : 1 ≤ tau)
+    (hnum : ee.number = se.number + mids.length + 1)
+    (hlegal : Legal tau (compactToDifficulty sc * se.length :: mids ++
+                          [compactToDifficulty ec * ee.length]))
+    (hds : compactToDifficulty sc * se.length ≤ U256_MAX)
+    (hde : compactToDifficulty ec * ee.length ≤ U256_MAX) :
+    verifyTau se sc ee ec tau = .pass := by
+  have hleg' := (legal_iff_leg tau _).mp hlegal
+  have hn : ee.number - se.number = mids.length + 1 := by omega
+  have hc := checkTau_complete htau mids hleg' hds hde
+  unfold verifyTau
+  rw [if_neg (by omega : ¬ se.number = ee.number)]
+  dsimp only
+  rw [if_neg (by simp only [Bool.or_eq_true, decide_eq_true_eq]; omega), hn, hc]
+  rfl
+
+
+/-- **C14 (trend check bounds).** If `verify_tau` passes across `n ≥ 1` epoch switches, the end
+epoch difficulty is within `[⌊D_s/tau^n⌋, D_s*tau^n]`; within one epoch the compact targets are
+equal.  The premise `1 ≤ tau` is needed (see `tau_sound_fails_at_tau_zero`) and harmless: the
+Rust constant is `TAU = 2`, asserted by the harness. -/
+theorem tau_sound (se ee : Epoch) (sc ec tau : Nat) (htau : 1 ≤ tau)
+    (h : verifyTau se sc ee ec tau = .pass) :
+    (se.number = ee.number → sc = ec) ∧
+    (se.number ≠ ee.number → se.number < ee.number ∧
+      divIter tau (ee.number - se.number) (compactToDifficulty sc * se.length)
+        ≤ compactToDifficulty ec * ee.length ∧
+      compactToDifficulty ec * ee.length
+        ≤ compactToDifficulty sc * se.length * tau ^ (ee.number - se.number)) := by
+  unfold verifyTau at h
+  by_cases h1 : se.number = ee.number
+  · rw [if_pos h1] at h
+    by_cases h2 : sc ≠ ec
+    · rw [if_pos h2] at h; cases h
+    · exact ⟨fun _ => Decidable.not_not.mp h2, fun hne => absurd h1 hne⟩
+  · rw [if_neg h1] at h
+    dsimp only at h
+    split at h
+    · cases h
+    · rename_i h2
+      simp only [Bool.or_eq_true, decide_eq_true_eq, not_or, Nat.not_lt] at h2
+      split at h
+      · rename_i h3
+        obtain ⟨t1, t2⟩ := checkTau_sound htau h3
+        exact ⟨fun e => absurd e h1, fun _ => ⟨by omega, t1, t2⟩⟩
+      · cases h
+
+/-- `tau_sound` as stated (no premise on `tau`) is false: with `tau = 0` an unchanged epoch
+difficulty `8 → 8` across one switch passes `verify_tau`, but `8 ≤ 8 * 0^1` fails. -/
+theorem tau_sound_fails_at_tau_zero :
+    ¬ ∀ (se ee : Epoch) (sc ec tau : Nat), verifyTau se sc ee ec tau = .pass →
+      (se.number = ee.number → sc = ec) ∧
+      (se.number ≠ ee.number → se.number < ee.number ∧
+        divIter tau (ee.number - se.number) (compactToDifficulty sc * se.length)
+          ≤ compactToDifficulty ec * ee.length ∧
+        compactToDifficulty ec * ee.length
+          ≤ compactToDifficulty sc * se.length * tau ^ (ee.number - se.number)) := by
+  intro hall
+  have h := (hall ⟨0, 0, 1⟩ ⟨1, 0, 1⟩ 0x20200000 0x20200000 0 (by decide)).2 (by decide)
+  exact absurd h.2.2 (by decide)
+
+/-- `sound` without `et ≤ U256_MAX` is false: start/end epoch difficulty `2^255`, `tau = 2`, two
+switches; the upper-limit total saturates, `total + unaligned` overflows and is accepted, so an
+(impossible for a `U256`) accumulated difficulty of `2^257` passes although the cone ends at
+`2^256`. -/
+theorem sound_needs_et_bound :
+    verifyTotalDifficulty ⟨0, 0, 1⟩ 0x03000002 0 ⟨2, 0, 1⟩ 0x03000002 (2 * 2 ^ 256) 2 = .ok .ok ∧
+    ¬ (2 * 2 ^ 256 - 0 - unalignedOf (compactToDifficulty 0x03000002) (compactToDifficulty 0x03000002)
+          ⟨0, 0, 1⟩ ⟨2, 0, 1⟩
+        ≤ mulSum 2 (2 - 0 - 1) (compactToDifficulty 0x03000002 * 1)) := by
+  constructor
+  · rfl
+  · decide
+
+/-! ## non-vacuity and regression witnesses -/
+
+/-- the premises of `complete` are satisfiable by a non-trivial history:
+`tau = 2`, epoch difficulties `8,4,2,2,4` of one block each (the history the pinned tree
+rejected on the lower side; compact `0x20200000` ↦ 8, `0x20400000` ↦ 4). -/
+example : verifyTotalDifficulty ⟨7, 0, 1⟩ 0x20200000 1000 ⟨11, 0, 1⟩ 0x20400000 1012 2 = .ok .ok := by
+  rfl
+
+/-- … and the mirror history `4,8,16,16,8` the pinned tree rejected on the upper side. -/
+example : verifyTotalDifficulty ⟨7, 0, 1⟩ 0x20400000 1000 ⟨11, 0, 1⟩ 0x20200000 1048 2 = .ok .ok := by
+  rfl
+
+/-- Witness kept from the pinned tree: with the exponent `k` of the band's *near* end the upper
+limit rejects the legal history `40,80,160,160,80`; `verify_total_difficulty` now passes `k+1`. -/
+theorem witness_near_end_exponent_incomplete :
+    checkLimit (Trend.new 40 80) .max 4 0 (80 + 160 + 160) 40 2 0 = .ok false ∧
+    checkLimit (Trend.new 40 80) .max 4 1 (80 + 160 + 160) 40 2 0 = .ok true := by
+  constructor <;> rfl
+
+/-- a total outside the cone is rejected (concrete instance of `sound`'s contrapositive) -/
+example : verifyTotalDifficulty ⟨7, 0, 1⟩ 0x20400000 1000 ⟨11, 0, 1⟩ 0x20200000 1200 2
+    = .ok .aboveUpper := by rfl
 
 end C14
